@@ -45,7 +45,7 @@ Fixpoint rmdir_parents (fuel : nat) (p : list N) : M unit :=
           let! r := perform (ORmdir d) in
           match r with
           | None => rmdir_parents f d
-          | Some ENOTEMPTY | Some EEXIST => mret tt
+          | Some ENOTEMPTY | Some EEXIST | Some EACCES => mret tt      (* not empty, or not ours to remove: the walk ends *)
           | Some _ => mthrow ESystem
           end
       end
